@@ -155,8 +155,20 @@ def run(prog: Program) -> Results:
         """the list is read as a sequence of segments (sa/seqbuild.py): the expression's own layer, then one element per stacked
         layer in stored order — however that is spelled (append in a loop, extend with a generator, list display, helper)"""
         sb = SeqBuilder(f.node)
-        seq = sb.sequence(list_name)
-        kinds = sb.kinds(seq, lambda t: ".stack" in t) if seq is not None else []
+        if list_name is None:
+            # what the function returns, whichever `return` it leaves through (`return stacked` when there is no own layer,
+            # `return [own, *stacked]` otherwise): the fullest one is judged, the others must not contradict it
+            outs = sb.returned() or []
+            cands = [(o, sb.kinds(o, lambda t: ".stack" in t)) for o in outs]
+            full = [(o, k) for o, k in cands if "first" in k and any(x.startswith("second") for x in k)]
+            if full and all("first" not in k or (o, k) in full for o, k in cands):
+                seq, kinds = full[0]
+            else:
+                seq, kinds = None, []
+            list_name = "<returned list>"
+        else:
+            seq = sb.sequence(list_name)
+            kinds = sb.kinds(seq, lambda t: ".stack" in t) if seq is not None else []
         r1.instances += 1
         if seq is None or "first" not in kinds or not any(k.startswith("second") for k in kinds):
             res.unclass(f"{f.key}: the 'own layer, then stacked layers' construction of `{list_name}` was not recognised")
@@ -224,8 +236,11 @@ def run(prog: Program) -> Results:
             res.add("R-C09-1", (rbs.key, "wrapping order"), rbs.loc(),
                     "rebuild_scoped does not wrap layers innermost-first (`reversed(layers)`) with the node's own trivia on the outermost let")
     # (c) _collect_scope_layers
-    c_layers = next((norm(n.value) for n in csl.node.body if isinstance(n, ast.Return) and isinstance(n.value, ast.Name)), "layers")
-    own_then_stack(csl, resolve_copy(csl.node, c_layers), "_collect_scope_layers")
+    c_rets = [n for n in walk_no_nested(csl.node) if isinstance(n, ast.Return) and n.value is not None]
+    if len(c_rets) == 1 and isinstance(c_rets[0].value, ast.Name):
+        own_then_stack(csl, resolve_copy(csl.node, c_rets[0].value.id), "_collect_scope_layers")
+    else:
+        own_then_stack(csl, None, "_collect_scope_layers")
     # (d) selector indexing
     for f, pat in ((sv, "{l}[-{d}]"), (rv, "len({l}) - {d}")):
         l_, d_, _t = scope_creation_parts(f.node)
